@@ -15,6 +15,8 @@
 (*        separate goroutines under the race detector                       *)
 (* view = [fnCount, enCount, body, styles, aux, parts, saved] (canonical    *)
 (* projection; parts/saved are sequences of [k kind, n name, h digest]).    *)
+(* Views are logged by reference ("v12"); every event carries `defs`, the   *)
+(* views it mentions for the first time in this case.                       *)
 (*                                                                         *)
 (* Oracle:  view of d in the shared run  =  view of d after the same number *)
 (* of its own calls when run alone  (obs[d] = solo[d] = F(history of d)).   *)
@@ -32,8 +34,8 @@ EXTENDS Iso, Json, IOUtils
 
 Trace == ndJsonDeserialize(IOEnv.WZ_OBS)
 
-VARIABLES l, sv, pos, div, der, ms, wit
-tvars == <<l, sv, pos, div, der, ms, wit>>
+VARIABLES l, vt, sv, pos, div, der, ms, wit
+tvars == <<l, vt, sv, pos, div, der, ms, wit>>
 
 AddWit(w, sigs, c) == w \cup {[sig |-> s, case |-> c] : s \in {x \in sigs : ~\E r \in w : r.sig = x}}
 SetOf(s) == {s[i] : i \in DOMAIN s}
@@ -51,15 +53,19 @@ FName(x) == IF x[1] = "f" THEN x[2] ELSE x[1] \o ":" \o x[2]
 \* no news: the main part is the serialisation of the body, a saved part is the in-memory part
 Derived(x, S) == \/ x = <<"part", "word/document.xml">> /\ <<"f", "body">> \in S
                  \/ x[1] = "saved" /\ (<<"part", x[2]>> \in S \/ (x[2] = "word/document.xml" /\ <<"f", "body">> \in S))
+\* views are logged by reference: e.defs introduces the views first seen in event e (dictionary
+\* compression by the harness; equal references are equal views)
+NoViews == [none |-> 0]
+DiffId(T, a, b) == IF a = b THEN {} ELSE Diff(T[a], T[b])
 News(now, old) == {FName(x) : x \in {y \in now \ old : ~Derived(y, now)}}
 
 LastPos(d) == LET P == {k[2] : k \in {x \in DOMAIN sv : x[1] = d}}
               IN IF P = {} THEN -1 ELSE CHOOSE p \in P : \A q \in P : q <= p
 
-TInit == l = 1 /\ sv = Nil /\ pos = Nil /\ div = Nil /\ der = {} /\ ms = Nil /\ wit = {}
+TInit == l = 1 /\ vt = NoViews /\ sv = Nil /\ pos = Nil /\ div = Nil /\ der = {} /\ ms = Nil /\ wit = {}
 
 TReset == /\ l <= Len(Trace) /\ Trace[l].ev = "reset"
-          /\ sv' = Nil /\ pos' = Nil /\ div' = Nil /\ der' = {} /\ ms' = Nil /\ wit' = wit /\ l' = l + 1
+          /\ vt' = NoViews /\ sv' = Nil /\ pos' = Nil /\ div' = Nil /\ der' = {} /\ ms' = Nil /\ wit' = wit /\ l' = l + 1
 
 \* a document run alone: remember its views; check the model against it
 TSolo == /\ l <= Len(Trace) /\ Trace[l].ev = "solo"
@@ -67,10 +73,12 @@ TSolo == /\ l <= Len(Trace) /\ Trace[l].ev = "solo"
                 s0 == Get(ms, e.d, InitDoc)
                 s1 == IF e.pos = 0 THEN InitDoc ELSE ApplyDoc(s0, e.d, e.op)
                 mv == View(s1.L, s1.R, e.d)
-                sigs == (IF mv.fnCount # e.view.fnCount THEN {<<"MODEL", "fnCount", e.op.op>>} ELSE {})
-                        \cup (IF mv.enCount # e.view.enCount THEN {<<"MODEL", "enCount", e.op.op>>} ELSE {})
+                T  == e.defs @@ vt
+                sigs == (IF mv.fnCount # T[e.view].fnCount THEN {<<"MODEL", "fnCount", e.op.op>>} ELSE {})
+                        \cup (IF mv.enCount # T[e.view].enCount THEN {<<"MODEL", "enCount", e.op.op>>} ELSE {})
                         \cup (IF e.pos > 0 /\ Ret(s0.R, e.op) # e.ret THEN {<<"MODEL", "ret", e.op.op>>} ELSE {})
-            IN /\ sv' = (<<e.d, e.pos>> :> [view |-> e.view, ret |-> e.ret]) @@ sv
+            IN /\ vt' = T
+               /\ sv' = (<<e.d, e.pos>> :> [view |-> e.view, ret |-> e.ret]) @@ sv
                /\ ms' = (e.d :> s1) @@ ms
                /\ wit' = AddWit(wit, sigs, e.case)
          /\ UNCHANGED <<pos, div, der>> /\ l' = l + 1
@@ -78,17 +86,19 @@ TSolo == /\ l <= Len(Trace) /\ Trace[l].ev = "solo"
 TStep == /\ l <= Len(Trace) /\ Trace[l].ev = "step"
          /\ LET e    == Trace[l]
                 D    == DOMAIN e.views
+                T    == e.defs @@ vt
                 busy == SetOf(e.busy)
                 np   == [d \in D |-> Get(pos, d, 0) + (IF e.fin /\ e.d = d THEN 1 ELSE 0)]
                 J    == {d \in D : d \notin busy /\ d \notin der /\ <<d, np[d]>> \in DOMAIN sv}
-                now(d) == Diff(e.views[d], sv[<<d, np[d]>>].view)
+                now(d) == DiffId(T, e.views[d], sv[<<d, np[d]>>].view)
                 kind(d) == IF d = e.d THEN "depends" ELSE "leaked"
                 \* a call of d that returned something else than when d ran alone: from here on the two
                 \* histories of d are no longer the same calls with the same results; d is not judged further
                 badret == e.fin /\ e.d \in J /\ e.ret # sv[<<e.d, np[e.d]>>].ret
                 sigs == UNION {{<<"C07", kind(d), f, e.op.op>> : f \in News(now(d), Get(div, d, {}))} : d \in J}
                         \cup (IF badret THEN {<<"C07", "depends", "ret", e.op.op>>} ELSE {})
-            IN /\ wit' = AddWit(wit, sigs, e.case)
+            IN /\ vt' = T
+               /\ wit' = AddWit(wit, sigs, e.case)
                /\ div' = [d \in D |-> IF d \in J THEN now(d) ELSE Get(div, d, {})]
                /\ der' = IF badret THEN der \cup {e.d} ELSE der
                /\ pos' = np
@@ -97,15 +107,17 @@ TStep == /\ l <= Len(Trace) /\ Trace[l].ev = "step"
 TRace == /\ l <= Len(Trace) /\ Trace[l].ev = "race"
          /\ LET e == Trace[l]
                 D == {d \in DOMAIN e.views : LastPos(d) >= 0}
+                T == e.defs @@ vt
                 sigs == {<<"C07", "race", s>> : s \in SetOf(e.sites)}
                         \cup (IF e.fatal # "" THEN {<<"C07", "race", "fatal:" \o e.fatal>>} ELSE {})
-                        \cup UNION {{<<"C07", "concurrent", f>> : f \in News(Diff(e.views[d], sv[<<d, LastPos(d)>>].view), {})} : d \in D}
-            IN wit' = AddWit(wit, sigs, e.case)
+                        \cup UNION {{<<"C07", "concurrent", f>> : f \in News(DiffId(T, e.views[d], sv[<<d, LastPos(d)>>].view), {})} : d \in D}
+            IN /\ vt' = T
+               /\ wit' = AddWit(wit, sigs, e.case)
          /\ UNCHANGED <<sv, pos, div, der, ms>> /\ l' = l + 1
 
 TDone == /\ l = Len(Trace) + 1
          /\ PrintT(<<"WZDONE", l - 1, ToJson(wit)>>)
-         /\ l' = l + 1 /\ UNCHANGED <<sv, pos, div, der, ms, wit>>
+         /\ l' = l + 1 /\ UNCHANGED <<vt, sv, pos, div, der, ms, wit>>
 
 TNext == TReset \/ TSolo \/ TStep \/ TRace \/ TDone
 TSpec == TInit /\ [][TNext]_tvars
